@@ -138,6 +138,10 @@ def dispatch (op : String) (a : List String) : Option String :=
       | none => "BADARG"
       | some qs => showSet ((qvToExt qs (int! h) (int! v)).map fun r => r.map Ext.id))
   | "e2qv", [ids, h, v] => some (showGroups s!"{h}/{v}/0/0" (extToQV (commaSplit ids) (int! h) (int! v)))
+  | "s2qv", [ids, h, v] =>
+    some (showGroups s!"{h}/{v}/0/0" (match sp2ext (commaSplit ids) with
+      | .ok ext => extToQV ext (int! h) (int! v)
+      | _ => .err))
   | "e2qa", [ids, q, a, e, o] =>
     some (showGroups s!"{q}/{a}/{e}/{o}" (extToQA (commaSplit ids) (int! q) (int! a) (int! e) (int! o)))
   | "qvrt", [ids, h, v, bh, bv] =>
@@ -270,6 +274,57 @@ def propCheck (op : String) (a : List String) : Option (Bool × String) :=
             | none => acc
             | some true => some (true, "libm band")
             | some false => some (false, s!"row {yIndex p.u (int! h)} disagrees with an independent libm outside the 2^-44 band")) none
+  | "newpt", [a, b, c] =>
+    match fb a, fb b, fb c with
+    | some lon, some lat, some alt =>
+      (match newPoint lon lat alt with
+       | none => none
+       | some p =>
+         -- exact rationals: 0 ≤ |lat| - |stored| < 1e-10  ⇔  0 ≤ d ∧ d·10^10 < 1 with d = |lat| - |stored|
+         let e := min lat.e p.lat.e
+         let d : Int := (lat.m.natAbs : Int) * 2 ^ (lat.e - e).toNat - (p.lat.m.natAbs : Int) * 2 ^ (p.lat.e - e).toNat
+         -- d is in units of 2^e
+         let lt1 : Bool := if e ≥ 0 then decide (d * 2 ^ e.toNat * 10000000000 < 1) else decide (d * 10000000000 < 2 ^ (-e).toNat)
+         if !(F64.eq p.lon lon && F64.eq p.alt alt) then some (false, "NEWPT lon/alt not stored unchanged")
+         else if d < 0 then
+           -- stored magnitude exceeds the input: only by binary64 rounding of lat*1e10 (below 2^-40 degrees)
+           let tiny : Bool := if e ≥ 0 then false else decide ((-d) * 2 ^ 40 < 2 ^ (-e).toNat)
+           some (false, if tiny then "LATULP stored latitude exceeds the input by rounding (< 2^-40 deg)" else "LATWRONG stored latitude exceeds the input")
+         else if !lt1 then
+           -- binary64 rounding of lat*1e10 just below an integer: the cut is 1e-10·(1+ε) with ε < 2^-20
+           let near : Bool := if e ≥ 0 then false else decide (d * 10000000000 * 2 ^ 20 < 2 ^ (-e).toNat * (2 ^ 20 + 1))
+           some (false, if near then "LATULP latitude cut by 1e-10 degrees plus a rounding error (lat*1e10 rounds below an integer)"
+                        else "LATWRONG latitude cut by more than 1e-10 degrees")
+         else none)
+    | _, _, _ => none
+  | _, _ => none
+
+/-- C15 on the implementation's own answer: an operation that interprets ID strings must answer ERR (the shift helpers:
+empty IDs) when one of them is malformed.  `D14EARLY` tags the array overlap checks, which stop at the first
+overlapping pair and so may not look at a later malformed element (known finding). -/
+def rejectCheck (op : String) (a : List String) (impl : String) : Option (Bool × String) :=
+  let extOk (s : String) : Bool := (parseExt s).isSome
+  let spOk (s : String) : Bool := ((sp2ext1 s).bind parseExt).isSome
+  let ar5 (s : String) : Bool := (splitSlash s).length == 5
+  let ar4 (s : String) : Bool := (splitSlash s).length == 4
+  let bad (ok : String → Bool) (args : List String) : Bool := args.any fun l => (commaSplit l).any fun s => !ok s
+  let need (b : Bool) (tag : String) : Option (Bool × String) :=
+    if b && impl != "ERR" then some (false, tag ++ " malformed ID accepted: result " ++ impl.take 60) else none
+  match op, a with
+  | "chgExt", ids :: _ | "mrgExt", ids :: _ | "nN", ids :: _ | "e2qv", ids :: _ | "e2qa", ids :: _ | "parse", ids :: _ =>
+    need (bad extOk [ids]) "ACCEPT"
+  | "geom", id :: _ => need (!extOk id) "ACCEPT"
+  | "geomsp", id :: _ => need (!spOk id) "ACCEPT"
+  | "chgSp", ids :: _ | "mrgSp", ids :: _ | "s2qv", ids :: _ => need (bad spOk [ids]) "ACCEPT"
+  | "sp2ext", [ids] => need (bad ar4 [ids]) "ACCEPT"
+  | "ext2sp", [ids] => need (bad ar5 [ids]) "ACCEPT"
+  | "ovE", [x, y] => need (!extOk x || !extOk y) "ACCEPT"
+  | "ovS", [x, y] => need (!spOk x || !spOk y) "ACCEPT"
+  | "ovEA", [x, y] => need (bad extOk [x, y]) "D14EARLY"
+  | "ovSA", [x, y] => need (bad spOk [x, y]) "D14EARLY"
+  | "shift", id :: _ => if !extOk id && impl != "" then some (false, "ACCEPT shift of a malformed ID is not empty") else none
+  | "n6", [id] | "n8", [id] | "n26", [id] =>
+    if !extOk id && (commaSplit impl).any (fun s => s != "") then some (false, "ACCEPT neighbours of a malformed ID") else none
   | _, _ => none
 
 partial def loop (h : IO.FS.Stream) (out : IO.FS.Stream) : IO Unit := do
@@ -286,7 +341,7 @@ partial def loop (h : IO.FS.Stream) (out : IO.FS.Stream) : IO Unit := do
     | none => out.putStrLn "U"
     | some m =>
       if m == impl then
-        match propCheck op args with
+        match (propCheck op args).orElse (fun _ => rejectCheck op args impl) with
         | none => out.putStrLn "A"
         | some (true, _) => out.putStrLn "B"
         | some (false, r) => out.putStrLn ("P\t" ++ r)
